@@ -463,8 +463,9 @@ impl<'tcx> Cx<'tcx> {
                 // name of the constant item if unevaluated
                 if let Const::Unevaluated(uv, _) = c.const_ {
                     parts.push(format!("\"item\":{}", jstr(&path_of(tcx, uv.def))));
-                    if uv.promoted.is_some() {
+                    if let Some(pi) = uv.promoted {
                         parts.push("\"promoted\":true".to_string());
+                        parts.push(format!("\"pidx\":{}", pi.index()));
                     }
                 }
                 let env = TypingEnv::post_analysis(tcx, owner);
@@ -827,6 +828,19 @@ fn dump(tcx: TyCtxt<'_>, out_dir: &str) {
                 }
                 parts.push(format!("\"names\":{}", jlist(&names)));
                 parts.push(format!("\"blocks\":{}", cx.body(did, body)));
+                // promoted constants of generic functions cannot be evaluated here (their generic
+                // parameters are unbound): dump their bodies so the consumer can evaluate them
+                if tcx.generics_of(did).count() > 0 {
+                    let proms = tcx.promoted_mir(did);
+                    let mut ps: Vec<String> = Vec::new();
+                    for (pi, pb) in proms.iter_enumerated() {
+                        let plocals: Vec<String> = pb.local_decls.iter().map(|d| jstr(&ty_str(d.ty))).collect();
+                        ps.push(format!("\"{}\":{{\"locals\":{},\"blocks\":{}}}", pi.index(), jlist(&plocals), cx.body(did, pb)));
+                    }
+                    if !ps.is_empty() {
+                        parts.push(format!("\"promoteds\":{{{}}}", ps.join(",")));
+                    }
+                }
                 fns.push(format!("{{{}}}", parts.join(",")));
             }
             DefKind::Const { .. } | DefKind::AssocConst { .. } | DefKind::Static { .. } => {
